@@ -103,7 +103,7 @@ def leg_c03_profiles(pid, tier, seed, h):
 def leg_c03_miri(pid, tier, seed, h):
     """Miri interprets the multi-byte-heavy subset (winnow's unsafe slicing on char boundaries)."""
     shards = 16
-    per = 8 if tier == "quick" else 60
+    per = 8 if tier == "quick" else 120
     env = h["env"]()
     env["MIRIFLAGS"] = "-Zmiri-disable-isolation"
     # build once (serialises on the cargo lock otherwise), then run the shards in parallel
@@ -140,6 +140,37 @@ def leg_c03_miri(pid, tier, seed, h):
             errs.append("Miri shard %d failed without a UB report: exit %s %s" % (k, p.returncode, txt[-300:]))
     results.append({"property_id": "C03", "profile": "miri", "leg": "miri", "evaluations": ops, "distinct_nontrivial": 0, "violations": viol, "counters": {"miri_ops_interpreted": ops, "miri_shards": shards}, "floors": [{"name": "Miri interpreted inputs", "ok": ops > 0}], "samples": []})
     return results, errs
+
+
+def leg_c03_asan(pid, tier, seed, h):
+    """The corpus again under AddressSanitizer (nightly rustc -Zsanitizer=address; std not rebuilt)."""
+    env = h["env"]()
+    env["CARGO_TARGET_DIR"] = os.path.join(h["target"], "asan")
+    env["RUSTFLAGS"] = "-Zsanitizer=address -Cforce-frame-pointers=yes -Awarnings"
+    rc, txt = _run(["cargo", "+nightly", "build", "--offline", "--quiet", "--release", "--target", "x86_64-unknown-linux-gnu"], h["harness"], env=env, timeout=1800)
+    binary = os.path.join(h["target"], "asan", "x86_64-unknown-linux-gnu", "release", "fpv")
+    if rc != 0 or not os.path.exists(binary):
+        return [], ["ASan leg could not be built: exit %s %s" % (rc, txt[-400:])]
+    out = os.path.join(h["logs"], "C03.asan.json")
+    if os.path.exists(out):
+        os.remove(out)
+    scale = h["scale"] or ("0.5" if tier == "quick" else "1.0")
+    renv = dict(os.environ, ASAN_OPTIONS="halt_on_error=1:abort_on_error=0:detect_leaks=0:symbolize=1")
+    rc, txt = _run([binary, "run", "C03", "--tier", tier, "--seed", str(seed), "--scale", scale, "--out", out], h["verif"], env=renv, timeout=3000)
+    viol = []
+    if "AddressSanitizer" in txt:
+        head = [l for l in txt.split("\n") if "ERROR: AddressSanitizer" in l][:1]
+        frames = [l.strip() for l in txt.split("\n") if l.strip().startswith("#") and ("winnow" in l or "lipe_find_parser" in l)][:1]
+        viol.append({"sig": "C03:asan:%s" % (head[0].split("AddressSanitizer:")[1].split()[0] if head else "report"), "what": "AddressSanitizer report: %s at %s" % (" ".join(head)[:200], " ".join(frames)[:200]), "case": "", "count": 1, "detail": {"log": txt[-3000:]}})
+        ops = 0
+    elif rc != 0 or not os.path.exists(out):
+        return [], ["ASan leg failed without a sanitizer report: exit %s %s" % (rc, txt[-300:])]
+    else:
+        r = json.load(open(out))
+        ops = r.get("evaluations", 0)
+        for v in r.get("violations", []):
+            viol.append(v)
+    return [{"property_id": "C03", "profile": "asan", "leg": "asan", "evaluations": ops, "distinct_nontrivial": 0, "violations": viol, "counters": {"asan_inputs": ops}, "floors": [{"name": "ASan run completed", "ok": ops > 0 or bool(viol)}], "samples": []}], []
 
 
 def leg_c03_valgrind(pid, tier, seed, h):
@@ -300,8 +331,8 @@ SPECS = {
     },
     "C03": {
         "profiles": [],
-        "legs": [leg_c03_profiles, leg_c03_miri, leg_c03_valgrind],
-        "rule": "inputs: grammar-aware generation (<= 4 KiB, nesting <= 64), prefixes and single-character mutations of valid inputs over a 40-character hostile alphabet, argument strings up to length 3 after every argument-taking keyword, numeric boundary strings, the lexer's undocumented words, multi-byte boundary inputs; each through parse -> Display / compile -> scheme x2 + io_map under catch_unwind, in a debug and a release build, the worker process supervised for aborts and hangs (bisected to one input; 3 x 30 s isolated re-run rule); the multi-byte subset under Miri; thorough adds valgrind memcheck. distinct_nontrivial = distinct inputs not rejected at the first token (reach an argument sub-parser or the compiler).",
+        "legs": [leg_c03_profiles, leg_c03_asan, leg_c03_miri, leg_c03_valgrind],
+        "rule": "inputs: grammar-aware generation (<= 4 KiB, nesting <= 64), prefixes and single-character mutations of valid inputs over a 40-character hostile alphabet, argument strings up to length 3 after every argument-taking keyword, numeric boundary strings, the lexer's undocumented words, multi-byte boundary inputs; each through parse -> Display / compile -> scheme x2 + io_map under catch_unwind, in a debug and a release build, the worker process supervised for aborts and hangs (bisected to one input; 3 x 30 s isolated re-run rule); the corpus again under AddressSanitizer (nightly, -Zsanitizer=address); the multi-byte subset under Miri; thorough adds valgrind memcheck. distinct_nontrivial = distinct inputs not rejected at the first token (reach an argument sub-parser or the compiler).",
     },
     "C04": {
         "profiles": ["release"],
